@@ -443,6 +443,10 @@ pub fn c03(rec: &mut Rec, rng: &mut Rng, thorough: bool) {
             crate::suites::tokens::abs_path_case(rec, u.as_bytes(), true);
         }
     }
+    // continued use after MANY reported errors (state that would accumulate across rejected requests)
+    for (k, lines, vlen) in [(150usize, 4usize, 200usize), (200, 1, 4)] {
+        c11_many_rejections(rec, rng, k, lines, vlen);
+    }
     // long op sequences on one connection, continuing after every kind of error
     let n_seq = if thorough { 6000 } else { 250 };
     for _ in 0..n_seq {
@@ -868,8 +872,65 @@ fn transcript(d: &mut ConnDriver, rec: &mut Rec, chunks: &[Vec<u8>]) -> Vec<Stri
     t
 }
 
+/// MANY rejected requests on one connection (nothing may accumulate across them), then a well-formed request fed in
+/// pieces that cut inside its header lines: same transcript as on a new connection, and no panic.
+fn c11_many_rejections(rec: &mut Rec, rng: &mut Rng, k: usize, hdr_lines: usize, value_len: usize) {
+    rec.case("many-rejections-then-continue");
+    rec.nontrivial();
+    let mut d = ConnDriver::new(rec, 51200);
+    for i in 0..k {
+        // a request rejected in the header state, after `hdr_lines` accepted header lines
+        let mut a = format!("GET /rejected{} HTTP/1.1\r\n", i).into_bytes();
+        for j in 0..hdr_lines {
+            a.extend_from_slice(format!("X-{}: {}\r\n", j, "v".repeat(value_len)).as_bytes());
+        }
+        a.extend_from_slice(match i % 3 {
+            0 => &b"no colon here\r\n"[..],
+            1 => &b"Content-Length: abc\r\n"[..],
+            _ => &b"Accept-Encoding: identity;q=0\r\n"[..],
+        });
+        let cuts = if i % 5 == 0 { gen::cuts(rng, &a, 2) } else { vec![] };
+        for ch in gen::split_at_cuts(&a, &cuts) {
+            d.recv(rec, &ch, 0);
+        }
+        d.popall(rec);
+        drain_writes(&mut d, rec);
+    }
+    let mut b = b"PUT /after HTTP/1.1\r\nX-One: first value\r\nContent-Length: 4\r\nX-Two: second value\r\n\r\nbodyGET /last HTTP/1.0\r\nHost: h\r\n\r\n".to_vec();
+    if rng.chance(1, 2) {
+        b.extend_from_slice(b"GET /one-more HTTP/1.1\r\n\r\n");
+    }
+    // cuts inside the header lines
+    let mut cuts = vec![25usize, 33, 47, 60, 75];
+    cuts.extend(gen::cuts(rng, &b, 3));
+    cuts.sort();
+    cuts.dedup();
+    let chunks = gen::split_at_cuts(&b, &cuts);
+    let t1 = transcript(&mut d, rec, &chunks);
+    let mut fresh = ConnDriver::new(rec, 51200);
+    let t2 = transcript(&mut fresh, rec, &chunks);
+    if d.panicked {
+        rec.oracle_fail("C03", "try_read panicked on a connection that had rejected many requests before", &d.log[d.log.len().saturating_sub(40)..].to_vec());
+    }
+    if t1 != t2 {
+        let mut l: Vec<String> = d.log[d.log.len().saturating_sub(60)..].to_vec();
+        l.push("# fresh connection fed the same continuation:".to_string());
+        l.extend(fresh.log.iter().cloned());
+        rec.oracle_fail("C11", &format!("after {} rejected requests the connection behaves differently from a new one: {:?} vs {:?}", k, t1, t2), &l);
+    }
+}
+
 pub fn c11(rec: &mut Rec, rng: &mut Rng, thorough: bool) {
     regress_f1(rec);
+    // many rejections: few / many header lines, short / long values (up to ~100 KiB of rejected header bytes in all)
+    for (k, lines, vlen) in [(40usize, 2usize, 8usize), (200, 1, 4), (150, 4, 200), (30, 20, 40)] {
+        c11_many_rejections(rec, rng, k, lines, vlen);
+    }
+    if thorough {
+        for (k, lines, vlen) in [(1000usize, 3usize, 100usize), (70, 15, 60), (600, 0, 0)] {
+            c11_many_rejections(rec, rng, k, lines, vlen);
+        }
+    }
     let n = if thorough { 25000 } else { 1000 };
     for i in 0..n {
         let limit = if rng.chance(1, 4) { pick_limit(rng) } else { 51200 };
